@@ -44,7 +44,7 @@ ALT_ALIAS = {'Wt': 'V', 'cl': 'v', 'hc': 'f', 'op': 'd', 'Lv': 'X', 'Rv': 'Y',
 QUICK = ['e3', 'amp2', 'ev2', 'm2', 'ip_cpl', 'tm2', 'ov2', 'mvp1', 're_amp2',
          'itmd_t2_2', 'e2@shared', 'amp2d@shared', 'norm4', 'itmd_p2',
          'spin_generic', 'spin_direct', 'real_ov2', 'spin_ov2', 'prec3s',
-         'rt_amp2', 'import_default']
+         'rt_amp2', 'import_default', 'itmd_t1_3']
 THOROUGH = QUICK + ['m1c', 'ea2', 're_e3', 'expec1', 'red_e2', 'sym_e2',
                     'fac_m1', 'code_m1', 'amp2d', 'e3@shared', 'm2@shared']
 
@@ -66,6 +66,10 @@ def gen_cases(tier, seed):
         for hs in seeds:
             for _ in range(nh if hs == '0' else 2):
                 variants.append([hs, r.randrange(1, 1 << 30), 'default'])
+        # other hash seeds without any prior history: differences can only come
+        # from set / dict iteration order
+        for hs in (['1', '2'] if tier == 'quick' else ['1', '2', '3', 'random']):
+            variants.append([hs, 0, 'default'])
         for _ in range(1 if tier == 'quick' else 3):
             variants.append(['0', r.choice([0, r.randrange(1, 1 << 30)]), 'alt'])
         cases.append({'id': f'C19-{tier[0]}{seed}-{q}', 'request': q,
@@ -141,7 +145,11 @@ def run_case(case, res):
     observed = {'request': request, 'terms': base['terms'],
                 'text': base['text'][:200], 'runs': []}
     res.observed = observed
-    for (hs, hseed, cfg), rec in zip(jobs[1:], recs[1:]):
+    # runs without a prior history first: a text difference there is never the
+    # history-dependent renaming of finding F6
+    pairs = sorted(zip(jobs[1:], recs[1:]),
+                   key=lambda jr: bool(jr[1].get('history')))
+    for (hs, hseed, cfg), rec in pairs:
         label = f'hashseed={hs} history={hseed} config={cfg}'
         if 'error' in rec:
             res.violation(f'request {request} failed under {label} although it '
@@ -170,6 +178,13 @@ def run_case(case, res):
             return
         if cfg == 'default':
             if rec['text'] != base['text']:
+                if not rec['history']:
+                    res.violation(
+                        f'{request}: the text of the result differs between two '
+                        f'fresh processes without any prior calls ({label}): '
+                        f'{base["text"][:200]} vs {rec["text"][:200]}',
+                        _tags(request))
+                    return
                 if rec['term_values'] == base['term_values'] and \
                         base['term_values'] and all(base['term_values']):
                     res.count('alpha_equivalent_text_differences')
